@@ -159,7 +159,6 @@ def run(tier, rep):
     # the same configurations reached through configure() on a used instance and through a reset_rules() block
     j1 += [(ckeys[(k * 7) % len(ckeys)], d, 1 + k % 2) for k, d in enumerate(gen.sample(docs, 4000 if q else 60000, C.SEED + 5))]
     j1 += [(ck, dense[0], r) for ck in ckeys for r in (1, 2)]
-    t1 = C.pmap(rec_types, j1, chunk=400)
     # pairs
     bases = [gen.cfg_key(c) for c in gen.BASE_CONFIGS] + gen.sample(ckeys, 40 if q else 400, C.SEED + 2)
     j2 = []
@@ -173,16 +172,20 @@ def run(tier, rep):
     incont = [d for d in withdef if re.search(r"(^|\n)\s*([-*+>]|\d+[.)])\s*\[[aA]\]: ", d)]
     for k, d in enumerate(gen.sample(withdef, 4000 if q else 80000, C.SEED + 8, keep_short=1500)):
         j2.append((("inline_definitions", "store_labels")[k % 2], bases[k % 2], d))
-    for k, d in enumerate(gen.sample(incont, 8000 if q else len(incont), C.SEED + 9, keep_short=3000)):
+    for k, d in enumerate(gen.sample(incont, 8000 if q else 300000, C.SEED + 9, keep_short=3000)):
         j2.append(("inline_definitions", bases[k % 2], d))
 
     # the two extensions against the barest base (zero preset: nothing else is enabled that could mask a difference)
     zero = gen.cfg_key(gen.BASE_CONFIGS[2])
     for k, d in enumerate(gen.sample(docs, 5000 if q else 60000, C.SEED + 4, keep_short=1500)):
         j2.append((("table", "strikethrough")[k % 2], zero, d))
-    t2 = C.pmap(rec_pair, j2, chunk=200)
-    verdicts, st = C.validate_traces("SwitchesTrace", t1 + t2, shard=4000, heap="8g")
-    rep.tlc_stats("SwitchesTrace", st, len(t1) + len(t2))
+    # executed and validated in slices (bounded memory in the thorough tier)
+    v1, st1, _k, first1 = C.run_sliced(rec_types, j1, "SwitchesTrace", slice_size=100000, chunk=400, shard=4000, heap="8g")
+    v2, st2, _k, _f = C.run_sliced(rec_pair, j2, "SwitchesTrace", slice_size=40000, chunk=200, shard=4000, heap="8g")
+    verdicts = v1 + v2
+    st = {k: st1[k] + st2[k] for k in st1}
+    n1, n2 = len(j1), len(j2)
+    rep.tlc_stats("SwitchesTrace", st, n1 + n2)
     held, skips = 0, {}
     for job, (v, pos) in zip(j1 + j2, verdicts):
         if v == "ok":
@@ -194,12 +197,12 @@ def run(tier, rep):
     # option routes through the facade model
     rh = route_histories()
     c12.validate(rep, "option-routes", rh, PID, shard=2000)
-    rep.sample({"types": {"config": json.loads(j1[3][0]), "doc": j1[3][1], "types": t1[3]["types"]}})
+    rep.sample({"types": {"config": json.loads(j1[3][0]), "doc": j1[3][1], "types": first1[3]["types"]}})
     rep.sample({"pair": {"switch": j2[5][0], "base": json.loads(j2[5][1]), "doc": j2[5][2]}})
-    rep.cov["evaluations"] = len(t1) + len(t2) + len(rh)
+    rep.cov["evaluations"] = n1 + n2 + len(rh)
     rep.cov["distinct_nontrivial"] = held + len(rh)
     rep.cov["guard_skips"] = skips
-    rep.cov["bounds"] = {"configs_enumerated": len(cfgs), "type_checks": len(t1), "pairs": len(t2), "route_histories": len(rh)}
+    rep.cov["bounds"] = {"configs_enumerated": len(cfgs), "type_checks": n1, "pairs": n2, "route_histories": len(rh)}
     rep.cov["rule"] = ("case = (configuration, document) for the producer relation, (switch, base configuration, document) for "
                        "the pair laws, or an option written by the three routes; non-trivial = guards hold and the comparison was made")
     rep.cov["exhaustive"] = False
